@@ -160,7 +160,11 @@ func execC04(c c04Case) (out c04Outcome, err error) {
 			if w < 0 {
 				w = 0
 			}
-			releases = append(releases, cl.at.Add(w))
+			rel := cl.at.Add(w)
+			if rel.After(c04ClockEnd) || rel.Before(cl.at) {
+				rel = c04ClockEnd // the (virtual) clock cannot pass this instant: "wait for ever"
+			}
+			releases = append(releases, rel)
 		}
 	}
 	sort.Slice(entries, func(i, j int) bool { return entries[i].Before(entries[j]) })
@@ -224,6 +228,9 @@ func execC04(c c04Case) (out c04Outcome, err error) {
 	}
 	return out, nil
 }
+
+// the last instant a clock counting nanoseconds in an int64 can show
+var c04ClockEnd = time.Unix(0, 1<<63-1)
 
 func runC04Bubble(t *testing.T, c c04Case) (out c04Outcome, err error) {
 	done := make(chan struct{})
